@@ -213,7 +213,7 @@ Definition hidden_next_to (target n : pname) : bool :=
 (* the shape every site must have: Dir(target), "." Base(target) ".tmp-…" *)
 Definition site_shape_ok (s : site) : bool :=
   match site_dir s, site_pat s with
-  | DDir, [PLit [46%N]; PBase; PLit (46 :: 116 :: 109 :: 112 :: 45 :: rest)%N] => true
+  | DDir, [PLit a; PBase; PLit b] => bytes_eqb a [46%N] && is_prefix [46; 116; 109; 112; 45]%N b
   | _, _ => false
   end.
 
